@@ -554,6 +554,9 @@ func propSpecs() map[string]*PropSpec {
 		}
 		cm(c06, "H_C06_esc_ctx", 4, int64(ctx), "4 arbitrary backslash-escaped ASCII punctuation bytes in a "+nm, "thorough")
 	}
+	for f, nm := range []string{"top level", "'> '", "' > '", "a '- ' list item"} {
+		cm(c06, "H_C06_codetrail", int64(f), 0, "indented code followed by a whitespace-only line of three free bytes over {space, tab}, a blank line and a paragraph, behind "+nm, "quick")
+	}
 	for f, nm := range []string{"top level", "'> '", "'>'", "'- ' list item", "'1. ' list item", "' > '"} {
 		cm(c06, "H_C06_markertab", int64(f), 0, "tab between a list marker ('-' or '7.') and the item content behind "+nm+": content offset from the absolute tab stop; second line at the offset or one column short", "quick")
 	}
